@@ -154,7 +154,8 @@ def deletion_lattice(n: grammar.Names) -> list[dict[str, Any]]:
     return out
 
 
-EXTRA_TEMPLATES = {"image": "<img {{ image.src }}>", "text": "<p>{{ text.body }}</p>", "quote": "<q>{{ quote.body }}{{ quote.by }}</q>", "row": "[{{ row }}]"}
+EXTRA_TEMPLATES = {"lam": "{{ items | where: i => i.kind == want | size }}{{ items | map: i => want | first }}{{ items | find: i => i.kind == want | size }}",
+                   "image": "<img {{ image.src }}>", "text": "<p>{{ text.body }}</p>", "quote": "<q>{{ quote.body }}{{ quote.by }}</q>", "row": "[{{ row }}]"}
 EXTRA_DATA = {
     "blocks": [{"kind": "image", "src": "a.png"}, {"kind": "text", "body": "hello"}, {"kind": "quote", "body": "b", "by": "me"}, {"kind": "image", "src": "c.png"}],
     "names": ["row", "text"], "flags": [False], "nils": [None], "cnt": 2, "one": 1, "h": {"n": 3, "z": None}, "amount": 12, "when": 0,
@@ -181,7 +182,27 @@ def extra_cases() -> list[dict[str, Any]]:
     ]
     # (the programs that bind a value of the wrong shape on purpose are not expected to succeed under strict policies)
     incomplete = ("nosuch", " for blocks %}", "with one %}")
-    return [{"source": s_, "own": True, "complete_ok": not any(x in s_ for x in incomplete)} for s_ in srcs]
+    out = [{"source": s_, "own": True, "complete_ok": not any(x in s_ for x in incomplete)} for s_ in srcs]
+    # an undefined KEPT in the local namespace (a macro parameter its caller omitted, a nil-valued property, a deleted
+    # variable) and only ever handed to `default`: allowed under every policy, with and without resource limits configured
+    keep = [
+        "{% macro greet name, title %}{% assign t = title %}{{ t | default: 'Dear' }} {{ name }}{% endmacro %}{% call greet one %}",
+        "{% macro m2 p, q %}{% capture c %}{{ p }}{% endcapture %}{% assign r = q %}{{ c }}{{ r | default: one }}{% endmacro %}{% call m2 cnt %}{% call m2 q: one, p: cnt %}",
+        "{% assign y = h.z %}{{ y | default: 'n/a' }}{% assign w = one %}{{ w | default: 'n/a' }}", "{% assign y = one %}{% capture c %}{{ cnt }}{% endcapture %}{{ c }}{{ y | default: amount }}",
+        "{% with v: one %}{% assign y = v %}{% endwith %}{{ y | default: 'n/a' }}{% for i in names %}{% assign last = i %}{% endfor %}{{ last }}",
+    ]
+    # one context-aware filter name used in two render contexts, each lambda reading a name of its OWN context
+    keep += [
+        "{{ blocks | where: i => i.kind == names[1] | size }}{% render 'lam', items: blocks, want: 'image' %}",
+        "{% render 'lam', items: blocks, want: 'image' %}{% for nm in names %}{{ blocks | where: i => i.kind == nm | size }}{{ blocks | map: i => nm | last }}{% endfor %}",
+        "{% macro mm want %}{{ blocks | where: i => i.kind == want | size }}{{ blocks | find: i => i.kind == want | size }}{% endmacro %}{{ blocks | where: i => i.kind == 'text' | size }}{{ blocks | find: i => i.kind == names[1] | size }}{% call mm 'image' %}",
+        "{% assign want = 'text' %}{{ blocks | where: i => i.kind == want | size }}{% render 'lam', items: blocks, want: 'image' %}{{ blocks | where: i => i.kind == want | size }}",
+    ]
+    for s_ in keep:
+        out.append({"source": s_, "own": True, "complete_ok": True})
+        out.append({"source": s_, "own": True, "complete_ok": True, "limited": True})
+    out += [{**c, "limited": True} for c in out[:8]]
+    return out
 
 
 def _extra_lattice() -> list[dict[str, Any]]:
@@ -231,6 +252,11 @@ def _spaces(tier: str, seed: int) -> dict[str, ps.SubSpace]:
                 "strict": impl.make_env(templates=EXTRA_TEMPLATES, undefined=StrictUndefined, shopify=True),
                 "falsy": impl.make_env(templates=EXTRA_TEMPLATES, undefined=FalsyStrictUndefined, shopify=True),
             },
+            # the same three policies with resource limits configured (none of them is ever reached)
+            lim_envs={
+                k: impl.make_env(templates=EXTRA_TEMPLATES, undefined=u, shopify=True, limits={"local_namespace_limit": 10**9, "loop_iteration_limit": 10**6, "output_stream_limit": 10**7})
+                for k, u in (("default", RecUndefined), ("strict", StrictUndefined), ("falsy", FalsyStrictUndefined))
+            },
             own_data=_extra_lattice(),
         )
     return _STATE["spaces"]
@@ -274,7 +300,7 @@ def _render(t: Any, d: dict[str, Any]) -> tuple[str, Any]:
 def check_case(case: dict[str, Any], res: ShardResult | None) -> list[tuple[str, Any, Any]]:
     out: list[tuple[str, Any, Any]] = []
     src = ps.case_source(case)
-    envs = _STATE["own_envs"] if case.get("own") else _STATE["envs"]
+    envs = _STATE["lim_envs"] if case.get("limited") else _STATE["own_envs"] if case.get("own") else _STATE["envs"]
     datas = _STATE["own_data"] if case.get("own") else _STATE["data"]
     partial_sources = list((EXTRA_TEMPLATES if case.get("own") else _STATE["srcs"]).values())
     try:
